@@ -125,15 +125,27 @@ impl Dg {
             .all(|&u| self.v.iter().all(|&w| u == w || (self.has_arc(u, w) != self.has_arc(w, u))))
     }
 
+    /// (outdegree, indegree) of every vertex, from one pass over the arcs (the per-vertex methods above
+    /// are the definitions; this is the same count for digraphs with 10^5 and more arcs).
+    pub fn degrees(&self) -> BTreeMap<usize, (usize, usize)> {
+        let mut m: BTreeMap<usize, (usize, usize)> = self.v.iter().map(|&u| (u, (0, 0))).collect();
+        for &(u, w) in &self.a {
+            m.entry(u).or_default().0 += 1;
+            m.entry(w).or_default().1 += 1;
+        }
+        m
+    }
+
     pub fn is_regular(&self) -> bool {
-        let mut it = self.v.iter();
-        let Some(&first) = it.next() else { return true };
-        let k = self.outdegree(first);
-        self.v.iter().all(|&u| self.outdegree(u) == k && self.indegree(u) == k)
+        let deg = self.degrees();
+        let Some(&first) = self.v.iter().next() else { return true };
+        let k = deg[&first].0;
+        self.v.iter().all(|u| deg[u] == (k, k))
     }
 
     pub fn is_balanced(&self) -> bool {
-        self.v.iter().all(|&u| self.outdegree(u) == self.indegree(u))
+        let deg = self.degrees();
+        self.v.iter().all(|u| deg[u].0 == deg[u].1)
     }
 
     pub fn is_symmetric(&self) -> bool {
@@ -157,7 +169,8 @@ impl Dg {
     }
 
     pub fn degree_sequence(&self) -> Vec<usize> {
-        self.v.iter().map(|&u| self.outdegree(u) + self.indegree(u)).collect()
+        let deg = self.degrees();
+        self.v.iter().map(|u| deg[u].0 + deg[u].1).collect()
     }
 
     // ---- closed forms of the deterministic generators (C14) ----
